@@ -2,7 +2,7 @@
 import ast
 from sa.index import AnalysisError
 from sa.paths import call_name
-from rules.common import txt, module_regex, regex_skeleton, format_skeleton, paths_of, loc, tests_on
+from rules.common import guard_dnf, txt, module_regex, regex_skeleton, format_skeleton, paths_of, loc, tests_on
 
 SPEC = {
     'explanation': (
@@ -29,6 +29,43 @@ MANIFEST = {
              'use). One necessary clause family of C16; the parser state machine and live-frame agreement are not decided.'),
     'note': 'Trusted: re._parser, string.Formatter.',
 }
+
+
+def _atom_accepts(item, ch):
+    """Does one regex atom (from re._parser) accept character ch?  Decided on the pattern's syntax tree."""
+    import re._constants as K
+    op, av = item
+    o = ord(ch)
+    if op is K.ANY:
+        return ch != '\n'
+    if op is K.LITERAL:
+        return av == o
+    if op is K.NOT_LITERAL:
+        return av != o
+    if op is K.IN:
+        neg = False
+        hit = False
+        for o2, a2 in av:
+            if o2 is K.NEGATE:
+                neg = True
+            elif o2 is K.LITERAL:
+                hit = hit or a2 == o
+            elif o2 is K.RANGE:
+                hit = hit or a2[0] <= o <= a2[1]
+            elif o2 is K.CATEGORY:
+                cat = {K.CATEGORY_DIGIT: ch.isdigit(), K.CATEGORY_NOT_DIGIT: not ch.isdigit(),
+                       K.CATEGORY_SPACE: ch.isspace(), K.CATEGORY_NOT_SPACE: not ch.isspace(),
+                       K.CATEGORY_WORD: ch.isalnum() or ch == '_', K.CATEGORY_NOT_WORD: not (ch.isalnum() or ch == '_')}.get(a2)
+                if cat is None:
+                    raise AnalysisError('regex category %s not modelled' % a2)
+                hit = hit or cat
+            else:
+                raise AnalysisError('regex class item %s not modelled' % o2)
+        return hit != neg
+    if op is K.SUBPATTERN:
+        body = list(av[3])
+        return len(body) == 1 and _atom_accepts(body[0], ch)
+    raise AnalysisError('regex atom %s not modelled' % op)
 
 
 def run(ctx):
@@ -178,6 +215,25 @@ def run(ctx):
                                                               'len(self.line) > 0') for n in line_ifs)
     ctx.ob('T19.line', tf.fq, 'the source line is emitted only when it is non-empty (truthiness test; the interpreter prints nothing '
            'for a frame without source)', ok, loc=loc(tf, line_ifs[0]) if line_ifs else tf.loc, detail=[txt(n.test) for n in line_ifs].__repr__())
+    # trailing noise lines ("Exception ... ignored") are discarded only when BOTH ends of the line say so: a line that merely
+    # ends (or merely starts) that way is part of the exception message
+    fs = prog.func('tbutils.ParsedException.from_string')
+    n_disc = 0
+    for n in ast.walk(fs.node):
+        is_pop = isinstance(n, ast.Call) and isinstance(n.func, ast.Attribute) and n.func.attr == 'pop' and not n.args
+        if not is_pop:
+            continue
+        for conj in guard_dnf(fs, n):
+            ends = {a.func.attr for a, truth in conj if truth and isinstance(a, ast.Call) and isinstance(a.func, ast.Attribute)
+                    and a.func.attr in ('startswith', 'endswith')}
+            if not ends:
+                continue            # decided by something else (e.g. a pattern match): nothing to say
+            n_disc += 1
+            ctx.ob('T7.discard', fs.fq, 'an input line is discarded as interpreter noise only under a guard that tests both its '
+                   'beginning and its end', ends == {'startswith', 'endswith'}, loc=loc(fs, n),
+                   detail='one way to reach the discard tests only: ' + ' and '.join(txt(a) for a, t in conj))
+    if n_disc == 0:
+        ctx.info('T7.discard: no prefix/suffix-guarded line discard in from_string (nothing to check)')
     # sibling constructors give the deferred line the frame's module globals (needed for loader-backed sources)
     for name, gl in (('from_tb', 'f_globals'), ('from_frame', 'f_globals')):
         cf = prog.func('tbutils.Callpoint.' + name)
@@ -199,19 +255,22 @@ def run(ctx):
             if op is sre_c.SUBPATTERN:
                 g = gnames.get(av[0])
                 body = list(av[3])
-                kind = None
+                # which of a set of probe characters can the group's repeated atom match?
+                PROBES = ['"', "'", ' ', ',', '<', '>', '\\', '/', ':', 'a', 'Z', '_', '.', '0', '7', chr(0xe9), chr(0x4e2d)]
+                kind = 'unrecognised'
+                acc = None
                 if len(body) == 1 and body[0][0] in (sre_c.MAX_REPEAT, sre_c.MIN_REPEAT) and len(body[0][1][2]) == 1:
                     inner = body[0][1][2][0]
-                    if inner[0] is sre_c.ANY:
-                        kind = 'any'
-                    elif inner[0] is sre_c.IN and inner[1] == [(sre_c.CATEGORY, sre_c.CATEGORY_DIGIT)]:
-                        kind = 'digits'
-                    else:
-                        kind = 'restricted'
-                want = 'digits' if g == 'lineno' else 'any'
-                ctx.ob('T12.groups', 'tbutils.' + rname, 'group %s accepts %s' % (g, 'decimal digits' if want == 'digits' else
-                       'any text (paths and names may contain quotes, spaces, non-ASCII)'), kind == want,
-                       loc='%s:%d' % (mod.relpath, nd.lineno), detail='group body is %s' % kind)
+                    acc = {c for c in PROBES if _atom_accepts(inner, c)}
+                if g == 'lineno':
+                    ok = acc is not None and acc == {'0', '7'}
+                    what = 'decimal digits only'
+                else:
+                    ok = acc is not None and acc == set(PROBES)
+                    what = 'any text (paths and names may contain quotes, spaces, punctuation, non-ASCII)'
+                ctx.ob('T12.groups', 'tbutils.' + rname, 'group %s accepts %s' % (g, what), ok,
+                       loc='%s:%d' % (mod.relpath, nd.lineno),
+                       detail='rejects %r' % sorted(set(PROBES) - acc) if acc is not None else 'group body is not a repeated single atom')
     # _DeferredLine.__str__: checkcache before getline
     ds = prog.func('tbutils._DeferredLine.__str__')
     ci = prog.cls('tbutils._DeferredLine')
